@@ -48,6 +48,21 @@ def run(case, max_steps=150000):
     with World(schedule=case['sched'], trace=TRACE, modules=(A,), max_steps=max_steps) as w:
         sim = w.sim
         sim.run_via = {}
+        # record when a caller goes down ensure_aw's "target is running: schedule onto it" path (the module-global lookup
+        # of run_aw_threadsafe inside ensure_aw goes through this recorder; it adds no scheduling point)
+        own_loops = {}
+        orig_ts = A.run_aw_threadsafe
+
+        def ts_recorder(aw, loop):
+            try:
+                i = own_loops.get(id(aio.get_running_loop()))
+            except RuntimeError:
+                i = None
+            if i is not None and callers[i].get('ts_path') is None:
+                callers[i]['ts_path'] = (sim.now, sim.steps)
+            return orig_ts(aw, loop)
+        A.run_aw_threadsafe = ts_recorder
+        w.inst.undo.append((A, 'run_aw_threadsafe', orig_ts))
         kind = case['target']
         target = w.new_loop() if kind != 'own' else None
         closed_done = {}
@@ -84,7 +99,7 @@ def run(case, max_steps=150000):
         pre = {}
         for i, c in enumerate(case['callers']):
             callers.append({'i': i, 'called': None, 'done': None, 'outcome': None, 'aw_loop_ok': None,
-                            'aw_started': None, 'aw_finished': None, 'obj': None, 'target_running_at_call': None})
+                            'aw_started': None, 'aw_finished': None, 'obj': None, 'target_running_at_call': None, 'ts_path': None})
             spec = c['aw']
             if kind in ('idle', 'running') and spec['kind'] in ('task', 'future'):
                 work = make_work(i, spec, lambda: target)
@@ -113,6 +128,7 @@ def run(case, max_steps=150000):
             async def main():
                 rec = callers[i]
                 own = aio.get_running_loop()
+                own_loops[id(own)] = i
                 tl = own if kind == 'own' else target
                 if case.get('gate') and kind == 'running':
                     # safe class: callers start only after loop_in_thread has returned
@@ -219,7 +235,8 @@ def abbreviate(hist):
             'callers': [{'i': c['i'], 'called': c['called'], 'done': c['done'],
                          'outcome': None if c['outcome'] is None else (c['outcome'][0], repr(c['outcome'][1])),
                          'aw_on_target_loop': c['aw_loop_ok'], 'aw_started': c['aw_started'], 'aw_finished': c['aw_finished'],
-                         'target_running_at_call': c['target_running_at_call']} for c in hist['callers']],
+                         'target_running_at_call': c['target_running_at_call'],
+                         'took_schedule_onto_running_target_path_at': c.get('ts_path')} for c in hist['callers']],
             'loop_in_thread': hist['lit'],
             'target_runs': [(e, hist['run_via'].get((e[1], e[2]))) for e in hist['loop_log'] if e[1] == hist['target']][:30],
             'blocked': hist['deadlock_report'] if hist['stop'] != 'finished' else None}
